@@ -78,6 +78,9 @@ def run(check: Check) -> None:
 
         if not coerce_first(check, fn, "V8", f"{name}.membership/coerce-first"):
             continue  # the operands are not the values the interpreters assume
+        # V1 elementwise safety of this kernel
+        if c02.kernel_elementwise(check, fn, "V1", f"{name}.membership"):
+            continue  # a decision taken for the whole batch: the kernel is not the elementwise expression the interpreters assume
         t = return_term(p, c, "membership")
         xname = fn.params[1].name
         # A1
@@ -130,8 +133,6 @@ def run(check: Check) -> None:
             ok = prm in reads
             check.require(ok, "D2", f"{name}.membership/{prm}", f"parameter `{prm}` reaches the returned value" if ok else
                           f"parameter `{prm}` is stored by the constructor but never read by membership()", loc(fn))
-        # V1 elementwise safety of this kernel
-        c02.kernel_elementwise(check, fn, "V1", f"{name}.membership")
     order_type_rules(check)
     monotonic_table(check)
     check.exhaustive_parts += ["NaN-in => NaN-out: exact abstract result per term", "order types of (x, parameters) per piecewise kernel"]
@@ -227,6 +228,64 @@ def exact_cases(cases, ev, alg):  # type: ignore[no-untyped-def]
     raise IsNaN()
 
 
+def discrete_definition(check: Check) -> None:
+    """A3 for `Discrete` (whose pairs are user data): the value is `height * interp(x; xs, ys)` - numpy's piecewise-linear interpolation of the
+    term's own x / y columns at x, with numpy's default treatment of the ends (the first / last y is held outside the sampled range: that is the
+    value "at +-inf" of the statement) and no period."""
+    from ..ordertype import flatten, unwrap
+
+    p = check.program
+    c = p.cls("Discrete")
+    fn = c.lookup("membership")
+    t = flatten(p, return_term(p, c, "membership"))
+    X = ("param", fn.params[1].name)
+    H = ("attr", ("param", "self"), "height")
+    VALUES = ("attr", ("param", "self"), "values")
+
+    def column(u: Term, seen: int = 0) -> int | None:
+        u = unwrap(u)
+        if u[0] == "call" and u[1][0] == "attr" and u[1][1] == ("param", "self") and not u[2] and seen < 3:
+            m = c.lookup(u[1][2])
+            if m is not None:
+                try:
+                    return column(flatten(p, return_term(p, c, u[1][2])), seen + 1)
+                except AnalysisError:
+                    return None
+        if u[0] == "sub" and unwrap(u[1]) == VALUES and u[2][0] == "tuple" and len(u[2][1]) == 2:
+            rows, col = u[2][1]
+            if rows == ("slice", ("const", None), ("const", None), ("const", None)) and col[0] == "const" and col[1] in (0, 1):
+                return col[1]
+        if u[0] == "sub" and u[1][0] == "attr" and u[1][2] == "T" and unwrap(u[1][1]) == VALUES and u[2][0] == "const" and u[2][1] in (0, 1):
+            return u[2][1]
+        return None
+
+    why = None
+    core = None
+    if t[0] == "binop" and t[1] == "*":
+        for a, b in ((t[2], t[3]), (t[3], t[2])):
+            if unwrap(a) == H:
+                core = unwrap(b)
+    if core is None or not (core[0] == "call" and core[1] == ("global", "numpy.interp")):
+        raise AnalysisError("Discrete.membership: the value is not `height * numpy.interp(...)` - a shape of the kernel this rule does not know")
+    args, kw = list(core[2]), dict(core[3])
+    for k in ("x", "xp", "fp"):
+        if k in kw:
+            args.append(kw.pop(k))
+    if len(args) != 3:
+        why = f"numpy.interp is called with {len(args)} arguments besides the keywords"
+    elif unwrap(args[0]) != X:
+        why = "the point interpolated at is not the argument x"
+    elif column(args[1]) != 0 or column(args[2]) != 1:
+        why = "the interpolation nodes are not (column 0, column 1) of the term's own values"
+    else:
+        odd = {k: v for k, v in kw.items() if not (v[0] == "const" and v[1] is None)}
+        if odd:
+            why = (f"numpy.interp is given {', '.join(sorted(odd))}: outside the sampled range the value is no longer the first / last y of the table "
+                   "(the documented interpolation holds the end values, also at -inf and +inf)") if set(odd) & {"left", "right"} else f"numpy.interp is given {', '.join(sorted(odd))}"
+    check.require(why is None, "A3", "Discrete.membership/definition", "Discrete: height * piecewise-linear interpolation of the term's (x, y) pairs at x, end values held outside "
+                  "the sampled range" if why is None else f"Discrete: {why}", loc(fn), {"term": show(t)[:200]})
+
+
 def order_type_rules(check: Check) -> None:
     """A2: at no order type of (x, parameters) with valid parameters and x not NaN is the value definitely NaN.
     A3: at no order type does the kernel disagree with the documented definition: first as sign classes (NaN / zero / positive /
@@ -239,10 +298,12 @@ def order_type_rules(check: Check) -> None:
     p = check.program
     for name in SHAPES:
         if name == "Discrete":
+            if not any(o.rule == "K1" and o.status == "violation" and o.construct.startswith("Discrete.") for o in check.obligations):
+                discrete_definition(check)
             continue
         c = p.cls(name)
         fn = c.lookup("membership")
-        if any(o.rule == "K1" and o.status == "violation" and o.construct.startswith(name + ".") for o in check.obligations):
+        if any(o.rule in ("K1", "V1", "V8") and o.status == "violation" and o.construct.startswith(name + ".") for o in check.obligations):
             continue
         xname = fn.params[1].name
         X = ("param", xname)
